@@ -10,7 +10,8 @@ Statements that differ from their first formulation (details at the theorems in 
   * `contiguous_while_resumable`: "resumable" is `previd ∧ bound JID` (the condition of the C code), not
     `previd` alone — counterexample `stale_previd_not_resumable` below;
   * `resumed_retransmits_exactly`, `enabled_resends_all`: hypothesis `hq` (no `<r/>` among the retained
-    elements) added; it holds in every reachable state (`retained_are_no_requests`);
+    elements) added; it holds in every reachable state (`retained_are_no_requests`); what the application
+    sends from within its CONNECT handler (`sendOnConnect`) comes AFTER every retransmission;
   * `retained_only_released_by_h`: stated for reachable states (false of two kinds of unreachable
     states); `retained_only_released_by_h_step` is the step-level form under explicit well-formedness
     hypotheses; the alternative "written in the same step" was dropped (it never occurs).
@@ -126,7 +127,8 @@ theorem resumed_retransmits_exactly (c : Conn) (st : XTree) (ours : Bytes) (v : 
     (hhonest : c.sm.sentNr.toNat - c.sm.queue.length ≤ v ∧ v ≤ c.sm.sentNr.toNat)
     (hq : ∀ e ∈ c.sm.queue, e.2.item ≠ .req) :
     let c' := handleSm c st
-    payload c'.queue = payload c.queue ++ ((c.sm.queue.filter (fun e => v ≤ e.1.toNat)).map (·.2.item)) ∧
+    payload c'.queue = payload c.queue ++ ((c.sm.queue.filter (fun e => v ≤ e.1.toNat)).map (·.2.item)) ++
+      (if c.sendOnConnect then [.user (b "presence") (some (b "oc"))] else []) ∧
     c'.sm.queue = [] ∧ c'.sm.sentNr = UInt32.ofNat v ∧ c'.sm.enabled = true ∧
     (∃ g, c'.evs = c.evs ++ [(g, Ev.connect)]) :=
   Lemmas.ConnC04.resumed_retransmits_exactly c st ours v hname hp hpv hh hstate hc hw hhonest hq
@@ -142,8 +144,9 @@ theorem enabled_resends_all (c : Conn) (st : XTree)
     (hid : (st.attr (b "resume")).isSome = true → (st.attr (b "id")).isSome = true)
     (hq : ∀ e ∈ c.sm.queue, e.2.item ≠ .req) :
     let c' := handleSm c st
-    payload c'.queue = payload c.queue ++ c.sm.queue.map (·.2.item) ∧ c'.sm.queue = [] ∧
-    c'.sm.sentNr = c.sm.sentNr :=
+    payload c'.queue = payload c.queue ++ c.sm.queue.map (·.2.item) ++
+      (if c.sendOnConnect then [.user (b "presence") (some (b "oc"))] else []) ∧
+    c'.sm.queue = [] ∧ c'.sm.sentNr = c.sm.sentNr :=
   Lemmas.ConnC04.enabled_resends_all c st hname hen hstate hid hq
 
 /-! ### non-vacuity, end-to-end examples, counterexamples -/
@@ -224,6 +227,26 @@ example :
     (c.tx.filterMap fun r => r.smNum.map fun n => (n, r.item)) =
       [(0, umsg "m0"), (1, umsg "m1"), (2, umsg "m2"), (2, umsg "m2"), (3, umsg "m3")] ∧
     c.sm.queue.map (fun x => (x.1, x.2.item)) = [(2, umsg "m2"), (3, umsg "m3")] ∧ c.sm.sentNr = 4 := by
+  decide
+
+set_option maxRecDepth 100000 in
+/-- the same with an application that sends its presence from within the CONNECT handler: the
+    retransmitted #2 goes first, then the presence "oc" (#3), then the new stanza (#4) -/
+example :
+    let c := exec (fresh me pw false 0)
+      (threeThenLoss ++ [.setSendOnConnect true, .run (.data [.stanza (resumedH "2")]), .usend (umsg "m3"), .run .none])
+    (c.tx.filterMap fun r => r.smNum.map fun n => (n, r.item)) =
+      [(0, umsg "m0"), (1, umsg "m1"), (2, umsg "m2"), (2, umsg "m2"),
+       (3, .user (b "presence") (some (b "oc"))), (4, umsg "m3")] ∧
+    c.sm.sentNr = 5 := by
+  decide
+
+set_option maxRecDepth 100000 in
+/-- … and at the moment `<resumed h='2'/>` is handled: #2, then the presence -/
+example :
+    let c := exec (fresh me pw false 0) (threeThenLoss ++ [.setSendOnConnect true, .run .none])
+    c.sendOnConnect = true ∧
+    payload (handleSm c (resumedH "2")).queue = [umsg "m2", .user (b "presence") (some (b "oc"))] := by
   decide
 
 set_option maxRecDepth 100000 in
